@@ -385,6 +385,37 @@ fn main() {
         }
     }
 
+    // ---------------- (e'') v6 signatures name a hash with a defined salt size and carry a salt of exactly that size: on every
+    //                   path, also the ones that verify key material (certifications, bindings).  A v6 RSA key can sign a short digest
+    {
+        use pgp::packet::{Packet, PacketParser, SignatureConfig, SignatureType, Subpacket, SubpacketData, UserId};
+        use pgp::types::{KeyDetails, Tag, Timestamp};
+        if let Ok(k) = guarded(|| vh::keys::gen_key(KeyVersion::V6, KeyType::Rsa(2048), 157)) {
+            let ppub = k.primary_key.public_key();
+            let uid = UserId::from_str(Default::default(), "c15 <c15@example.org>").unwrap();
+            for (hname, hash, saltlen) in [("sha1", HashAlgorithm::Sha1, 16usize), ("md5", HashAlgorithm::Md5, 16), ("ripemd160", HashAlgorithm::Ripemd160, 16), ("sha256-short-salt", HashAlgorithm::Sha256, 8), ("sha256-long-salt", HashAlgorithm::Sha256, 32), ("sha512-16", HashAlgorithm::Sha512, 16), ("sha256", HashAlgorithm::Sha256, 16)] {
+                let legal = hname == "sha256";
+                let r = guarded(|| -> Option<(bool, bool, bool)> {
+                    let mut c = SignatureConfig::v6_with_salt(SignatureType::CertPositive, ppub.algorithm(), hash, vec![0x42; saltlen]);
+                    c.hashed_subpackets = vec![Subpacket::regular(SubpacketData::SignatureCreationTime(Timestamp::from_secs(1_700_000_000))).ok()?, Subpacket::regular(SubpacketData::IssuerFingerprint(ppub.fingerprint())).ok()?];
+                    let sig = match c.sign_certification(&k.primary_key, &ppub, &Password::empty(), Tag::UserId, &uid) { Ok(s) => s, Err(_) => return Some((false, false, false)) };
+                    let w = Packet::from(sig.clone()).to_bytes().ok()?;
+                    // the packet as a verifier receives it
+                    let through_wire = match PacketParser::new(&w[..]).next() { Some(Ok(Packet::Signature(s))) => s.verify_certification(&ppub, Tag::UserId, &uid).is_ok(), _ => false };
+                    // inside a certificate
+                    let mut cert = SignedPublicKey::from(k.clone());
+                    cert.details.users = vec![pgp::types::SignedUser::new(uid.clone(), vec![sig.clone()])];
+                    let in_cert = cert.to_bytes().ok().and_then(|b| SignedPublicKey::from_bytes(&b[..]).ok()).map(|c2| c2.details.users.iter().any(|u| !u.signatures.is_empty()) && c2.verify_bindings().is_ok()).unwrap_or(false);
+                    // the object as built, never serialised
+                    let in_memory = sig.verify_certification(&ppub, Tag::UserId, &uid).is_ok();
+                    Some((through_wire, in_cert, in_memory))
+                });
+                let (imp, pred) = match r { Ok(Some((a, b, c))) => (format!("accepted through-wire={} in-certificate={} in-memory={}", a as u8, b as u8, c as u8), if legal { a && b && c } else { !a && !b }), Ok(None) => ("not constructible".into(), false), Err(p) => (p, false) };
+                cx.out.case("", &[], &["v6-hash-salt-rule".into(), hname.into()], &imp, Some(pred), &format!("v6-hash-salt-rule-{}", if legal { "legal" } else { "illegal" }));
+            }
+        }
+    }
+
     // ---------------- (g) certificates: subkey versions; signing subkeys on the public and the secret path
     {
         // v6 primary with a v4 subkey and the reverse: splice the subkey packets of one certificate behind the other
